@@ -285,3 +285,9 @@ from contracts import c10_defunct as _C10
 _CQ = 'cassandra.connection.Connection.'
 harness('C14', 'connection-errors-each-handler-once', functions=[_CQ + 'defunct', _CQ + 'error_all_requests', _CQ + 'error_all_cp_sessions'], native='contracts.native.c10:replay')(_C10.defunct)
 harness('C14', 'connection-errors-each-handler-once[many]', functions=[_CQ + 'error_all_requests'], native='contracts.native.c10:replay')(_C10.many)
+
+# A retried request must be in flight once: _retry_task sends to the same host OR hands over to the next host, never both (two answers would complete the future
+# twice).  C17's contract on _retry_task (request id 0 counts as sent), re-discharged here.
+from contracts import c17_plan_order as _C17
+_RF = 'cassandra.cluster.ResponseFuture.'
+harness('C14', 'retry-is-sent-once', functions=[_RF + '_retry_task', _RF + '_query', _RF + 'send_request'], native='contracts.native.c17:replay')(_C17.retry_task)
